@@ -2,6 +2,7 @@ package main
 
 import (
 	"go/token"
+	"sort"
 	"go/types"
 	"math/big"
 	"strings"
@@ -41,11 +42,15 @@ type rangeEnv struct {
 	bytesets map[string]map[*ssa.BasicBlock]*ByteSet
 	wraps    []string // diagnostics about sub-expressions that may wrap
 	storesTo map[string]bool
-	nonNeg   map[*ssa.Phi]bool // inductive hypotheses: phi >= 0
+	assume     map[*ssa.Phi][2]*big.Int // inductive hypotheses lo <= phi <= hi
+	phiMemo    map[*ssa.Phi][2]*big.Int
+	thresholds []int64
+	depth      int
 }
 
 func newRangeEnv(fn *ssa.Function) *rangeEnv {
-	r := &rangeEnv{fn: fn, lin: newLinEnv(linOpts{}), bytesets: map[string]map[*ssa.BasicBlock]*ByteSet{}, storesTo: map[string]bool{}}
+	r := &rangeEnv{fn: fn, lin: newLinEnv(linOpts{}), bytesets: map[string]map[*ssa.BasicBlock]*ByteSet{}, storesTo: map[string]bool{},
+		assume: map[*ssa.Phi][2]*big.Int{}, phiMemo: map[*ssa.Phi][2]*big.Int{}}
 	for _, b := range fn.Blocks {
 		for _, ins := range b.Instrs {
 			if st, ok := ins.(*ssa.Store); ok {
@@ -212,6 +217,26 @@ func (r *rangeEnv) rng(v ssa.Value, at *ssa.BasicBlock) (lo, hi *big.Int) {
 		if isIntType(a.X.Type()) {
 			lo, hi = r.rng(a.X, at)
 		}
+	case *ssa.Call:
+		if cal := a.Call.StaticCallee(); cal != nil && cal.Blocks != nil && cal.Pkg == r.fn.Pkg && cal != r.fn && r.depth < 2 {
+			// callee summary: union of the ranges of its return expressions (no argument information)
+			var l, h *big.Int
+			sub := newRangeEnv(cal)
+			sub.depth = r.depth + 1
+			for _, cb := range cal.Blocks {
+				if ret, ok := cb.Instrs[len(cb.Instrs)-1].(*ssa.Return); ok && len(ret.Results) == 1 {
+					rl, rh := sub.rng(ret.Results[0], cb)
+					if l == nil {
+						l, h = rl, rh
+					} else {
+						l, h = minBig(l, rl), maxBig(h, rh)
+					}
+				}
+			}
+			if l != nil && len(sub.wraps) == 0 {
+				lo, hi = maxBig(tlo, l), minBig(thi, h)
+			}
+		}
 	case *ssa.BinOp:
 		switch a.Op {
 		case token.ADD:
@@ -246,6 +271,23 @@ func (r *rangeEnv) rng(v ssa.Value, at *ssa.BasicBlock) (lo, hi *big.Int) {
 			} else if xl.Sign() >= 0 {
 				lo, hi = bigOf(0), xh
 			}
+		case token.OR, token.XOR:
+			xl, xh := r.rng(a.X, at)
+			yl, yh := r.rng(a.Y, at)
+			if xl.Sign() >= 0 && yl.Sign() >= 0 {
+				m := maxBig(xh, yh)
+				bits := m.BitLen()
+				lo, hi = bigOf(0), new(big.Int).Sub(new(big.Int).Lsh(bigOf(1), uint(bits)), bigOf(1))
+				if hi.Cmp(thi) > 0 {
+					hi = thi
+				}
+			}
+		case token.SHL:
+			xl, xh := r.rng(a.X, at)
+			yl, yh := r.rng(a.Y, at)
+			if xl.Sign() >= 0 && yl.Sign() >= 0 && yh.IsInt64() && yh.Int64() < 64 {
+				lo, hi = fit(new(big.Int).Lsh(xl, uint(yl.Int64())), new(big.Int).Lsh(xh, uint(yh.Int64())), "<<")
+			}
 		case token.SHR:
 			xl, xh := r.rng(a.X, at)
 			yl, _ := r.rng(a.Y, at)
@@ -260,49 +302,55 @@ func (r *rangeEnv) rng(v ssa.Value, at *ssa.BasicBlock) (lo, hi *big.Int) {
 			}
 		}
 	case *ssa.Phi:
-		// inductive lower bound 0: assume phi >= 0, check every incoming value is >= 0
-		if tlo.Sign() < 0 {
-			if r.nonNeg[a] {
-				lo = bigOf(0)
-				break
+		if as, ok := r.assume[a]; ok {
+			lo, hi = maxBig(tlo, as[0]), minBig(thi, as[1])
+			break
+		}
+		if m, ok := r.phiMemo[a]; ok && len(r.assume) == 0 {
+			lo, hi = m[0], m[1]
+			break
+		}
+		if len(r.assume) >= 3 {
+			break // nesting limit: type range
+		}
+		try := func(l, h *big.Int) bool {
+			sub := &rangeEnv{fn: r.fn, lin: r.lin, bytesets: r.bytesets, storesTo: r.storesTo, assume: map[*ssa.Phi][2]*big.Int{a: {l, h}}, phiMemo: r.phiMemo, thresholds: r.thresholds}
+			for p, v := range r.assume {
+				sub.assume[p] = v
 			}
-			sub := &rangeEnv{fn: r.fn, lin: r.lin, bytesets: r.bytesets, storesTo: r.storesTo, nonNeg: map[*ssa.Phi]bool{a: true}}
-			for p := range r.nonNeg {
-				sub.nonNeg[p] = true
-			}
-			all := true
 			for i, e := range a.Edges {
-				el, _ := sub.rng(e, a.Block().Preds[i])
-				if el.Sign() < 0 {
-					all = false
+				if e == ssa.Value(a) {
+					continue
+				}
+				el, eh := sub.rng(e, a.Block().Preds[i])
+				if el.Cmp(l) < 0 || eh.Cmp(h) > 0 {
+					return false
+				}
+			}
+			return true
+		}
+		// inductive lower bound: 0, then -1 (range-loop index)
+		if tlo.Sign() < 0 {
+			for _, cand := range []int64{0, -1} {
+				if try(bigOf(cand), thi) {
+					lo = bigOf(cand)
 					break
 				}
 			}
-			if all {
-				lo = bigOf(0)
-			}
 		}
-		// a phi of constants / bounded values (no loop-carried growth analysis): join when all edges are
-		// constants or the phi itself; otherwise type range
-		l, h := (*big.Int)(nil), (*big.Int)(nil)
-		okAll := true
-		for _, e := range a.Edges {
-			if e == ssa.Value(a) {
+		// inductive upper bound from the comparison constants of the function (ascending)
+		for _, cand := range r.thresholdList() {
+			cb := bigOf(cand)
+			if cb.Cmp(lo) < 0 || cb.Cmp(thi) >= 0 {
 				continue
 			}
-			if _, isC := e.(*ssa.Const); !isC {
-				okAll = false
+			if try(lo, cb) {
+				hi = cb
 				break
 			}
-			el, eh := r.rng(e, at)
-			if l == nil {
-				l, h = el, eh
-			} else {
-				l, h = minBig(l, el), maxBig(h, eh)
-			}
 		}
-		if okAll && l != nil {
-			lo, hi = l, h
+		if len(r.assume) == 0 {
+			r.phiMemo[a] = [2]*big.Int{lo, hi}
 		}
 	}
 	// refinement 1: byte sets
@@ -367,4 +415,52 @@ func isNarrowing(c *ssa.Convert) bool {
 
 func typeShort(t types.Type) string {
 	return strings.TrimPrefix(t.String(), sipspPath+".")
+}
+
+// thresholdList: candidate bounds = integer constants compared against in the function (and +-1),
+// and fixed array lengths; ascending, small values only.
+func (r *rangeEnv) thresholdList() []int64 {
+	if r.thresholds != nil {
+		return r.thresholds
+	}
+	set := map[int64]bool{}
+	add := func(k int64) {
+		for _, d := range []int64{-1, 0, 1} {
+			if k+d >= 0 && k+d <= 1<<20 {
+				set[k+d] = true
+			}
+		}
+	}
+	for _, b := range r.fn.Blocks {
+		for _, ins := range b.Instrs {
+			if bo, ok := ins.(*ssa.BinOp); ok {
+				switch bo.Op {
+				case token.LSS, token.LEQ, token.GTR, token.GEQ, token.EQL, token.NEQ:
+					if k, ok := constIntOf(bo.X); ok {
+						add(k)
+					}
+					if k, ok := constIntOf(bo.Y); ok {
+						add(k)
+					}
+				}
+			}
+			if ia, ok := ins.(*ssa.IndexAddr); ok {
+				t := ia.X.Type().Underlying()
+				if pt, ok := t.(*types.Pointer); ok {
+					t = pt.Elem().Underlying()
+				}
+				if at, ok := t.(*types.Array); ok {
+					add(at.Len())
+				}
+			}
+		}
+	}
+	for k := range set {
+		r.thresholds = append(r.thresholds, k)
+	}
+	sort.Slice(r.thresholds, func(i, j int) bool { return r.thresholds[i] < r.thresholds[j] })
+	if r.thresholds == nil {
+		r.thresholds = []int64{}
+	}
+	return r.thresholds
 }
